@@ -22,8 +22,20 @@ Definition runner (c : nat * list Z * list (Z * option Z * bool) * list (nat * l
   match generational_step Z Z fit (fun g => g) Z.eqb 0%Z ea pop specs chosen with
   | Ok next => 0%Z :: enc_pop next
   | MissingRead => [1%Z] | StaleRead => [2%Z] | BadOracle => [3%Z]
+  end.
+(* one island-level operation other than a generational step, from the real state before it *)
+Definition runner2 (c : nat * list Z * list (Z * option Z * bool) * nat * (nat * list Z * list nat * list (Z * option Z * bool))) : list Z :=
+  let '(a, tbl, p, age, (k, gs, keep, inc)) := c in
+  let fit := fun g : Z => nth (Z.to_nat g) tbl 0%Z in
+  let mk := map (fun t : Z * option Z * bool => let '(g, s, f) := t in mkInd Z Z g s f) in
+  let ea := match a with 0%nat => BaseEA | 1%nat => MuPlusLambda | 2%nat => MuCommaLambda | 3%nat => AgeFitnessEA | _ => CrowdingEA end in
+  let op := match k with 0%nat => IReset Z Z | 1%nat => IBest Z Z | 2%nat => IRegen Z Z gs | _ => IMigrate Z Z keep (mk inc) end in
+  match island_op Z Z fit (fun g => g) Z.eqb 0%Z ea (mk p, age) op with
+  | Ok (next, age') => 0%Z :: Z.of_nat age' :: enc_pop next
+  | MissingRead => [1%Z] | StaleRead => [2%Z] | BadOracle => [3%Z]
   end."""
 RUNNER = "runner"
+RUNNER2 = "runner2"
 EAS = ["base", "mu+lambda", "mu,lambda", "agefitness", "crowding"]
 
 
@@ -34,6 +46,14 @@ def coq_case(c):
         vlib.clist(c["pop"], lambda t: "(%s, %s, %s)" % (vlib.cz(t[0]), vlib.copt(t[1]), vlib.cbool(t[2]))),
         vlib.clist(c["specs"], lambda t: "(%s, %s, %s)" % (nat(t[0]), vlib.clist(t[1], nat), vlib.cz(t[2]))),
         vlib.clist(c["chosen"], nat))
+
+
+def coq_case2(c):
+    nat = lambda x: "%d%%nat" % x  # noqa
+    trip = lambda t: "(%s, %s, %s)" % (vlib.cz(t[0]), vlib.copt(t[1]), vlib.cbool(t[2]))  # noqa
+    return "(%s, %s, %s, %s, (%s, %s, %s, %s))" % (
+        nat(c["ea"]), vlib.clist(c["table"]), vlib.clist(c["pop"], trip), nat(c["age"]),
+        nat(c["op"]), vlib.clist(c["gs"]), vlib.clist(c["keep"], nat), vlib.clist(c["inc"], trip))
 
 
 # ------------------------------------------------------------------ implementation side
@@ -115,8 +135,6 @@ class Monitor:
         orig_best = Island.get_best_individual
 
         def best(self_):
-            if self_.generational_age == 0:
-                self_.evaluate_population()
             old = mon.phase
             mon.phase = "get_best_individual"
             try:
@@ -205,11 +223,27 @@ def impl_main(payload):
         ea = isl._ea
         ogs = type(ea).generational_step
         viol = []
-        ops = [rng.choice(["step", "step", "step", "reset", "best", "hof", "regen"]) for _ in range(rng.randint(2, 7))]
+        ops = [rng.choice(["step", "step", "step", "reset", "best", "hof", "regen", "migrate"]) for _ in range(rng.randint(2, 7))]
         if rng.random() < 0.5:
             ops = ["best"] + ops
+        def vc_(v):
+            return None if v is None else int(v)
+
+        def island_case(kind, before, age, after, gs=(), keep=(), inc=()):
+            table = [0] * len(codes)
+            for key, cdx in codes.items():
+                table[cdx] = int(digit_value(list(key)))
+            out = [0, isl.generational_age]
+            for (g, s_, f) in after:
+                out += [g, -1 if s_ is None else int(s_), 1 if f else 0]
+            results.append(dict(kind="iop", case=dict(ea=ea_kind, table=table, pop=[[g, vc_(s_), bool(f)] for (g, s_, f) in before], age=age,
+                                                      op=kind, gs=list(gs), keep=list(keep),
+                                                      inc=[[g, vc_(s_), bool(f)] for (g, s_, f) in inc]), out=out, viol=[]))
         for op in ops:
             mon.bad_reads = []
+            pre_pop = list(isl.population)
+            pre = [mon.snap(p) for p in pre_pop]
+            pre_age = isl.generational_age
             try:
                 if op == "step":
                     pop_before = list(isl.population)
@@ -260,12 +294,38 @@ def impl_main(payload):
                                         out=out, viol=[]))
                 elif op == "reset":
                     isl.reset_fitness()
+                    island_case(0, pre, pre_age, [mon.snap(p) for p in isl.population])
                 elif op == "regen":
                     isl.regenerate_population()      # a fresh, unevaluated population whatever the island's age
+                    post = [mon.snap(p) for p in isl.population]
+                    island_case(2, pre, pre_age, post, gs=[g for (g, _, _) in post])
                 elif op == "best":
                     isl.get_best_individual()
+                    island_case(1, pre, pre_age, [mon.snap(p) for p in isl.population])
+                elif op == "migrate":
+                    # the real migration code of the serial archipelago on this island and a partner of the same kind that is new
+                    # (unevaluated members) or one generation old
+                    from bingo.evolutionary_optimizers.serial_archipelago import SerialArchipelago
+                    st_np, st_py = np.random.get_state(), random.getstate()
+                    partner = toy_island(ea_kind, seed + 17, mon)
+                    if rng.random() < 0.5:
+                        partner.evolve(1)
+                    np.random.set_state(st_np)
+                    random.setstate(st_py)
+                    inc_before = {id(p): mon.snap(p) for p in partner.population}
+                    arch = SerialArchipelago.__new__(SerialArchipelago)
+                    arch.islands, arch._num_islands = [isl, partner], 2
+                    arch._coordinate_migration_between_islands()
+                    pos = {id(p): k for k, p in enumerate(pre_pop)}
+                    post_pop = list(isl.population)
+                    keep = [pos[id(p)] for p in post_pop if id(p) in pos]
+                    inc = [inc_before[id(p)] for p in post_pop if id(p) not in pos and id(p) in inc_before]
+                    if len(keep) + len(inc) != len(post_pop):
+                        viol.append("after a migration the island holds an individual that came from neither partner")
+                    island_case(3, pre, pre_age, [mon.snap(p) for p in post_pop], keep=keep, inc=inc)
                 else:
                     isl.update_hall_of_fame()
+                    island_case(1, pre, pre_age, [mon.snap(p) for p in isl.population])
             except Exception as e:  # noqa
                 viol.append("%s raised %r (algorithm %s, seed %d)" % (op, e, EAS[ea_kind], seed))
             viol += ["%s (algorithm %s, seed %d, after %s)" % (b, EAS[ea_kind], seed, op) for b in mon.bad_reads[:2]]
@@ -302,6 +362,7 @@ def agraph_runs(nruns, seed, mon):
     from bingo.stats.hall_of_fame import HallOfFame
     from bingo.symbolic_regression import AGraphCrossover, AGraphMutation, ComponentGenerator, AGraphGenerator, \
         ExplicitRegression, ExplicitTrainingData
+    from bingo.symbolic_regression.agraph.agraph import AGraph
     x = np.linspace(-2, 2, 20).reshape(-1, 1)
     td = ExplicitTrainingData(x, x ** 2 + 3.5 * x)
     ref = ExplicitRegression(training_data=td)
@@ -314,8 +375,16 @@ def agraph_runs(nruns, seed, mon):
             old = mon.phase
             mon.phase = None
             try:
-                c = copy.deepcopy(ind)
-                cache[key] = float(ref(c))
+                # a FRESH equation built from the genome and the constants held - not a copy, whose caches could be as stale
+                # as the individual's own
+                fresh = AGraph(use_simplification=bool(getattr(ind, "_use_simplification", False)))
+                fresh.command_array = np.array(ind.command_array, dtype=int)
+                held = tuple(float(c) for c in np.atleast_1d(ind.constants))
+                if fresh.get_number_local_optimization_params() != len(held):
+                    cache[key] = float("-12345.678")        # the constants held do not even fit the genome: never a true fitness
+                else:
+                    fresh.set_local_optimization_params(held)
+                    cache[key] = float(ref(fresh))
             finally:
                 mon.phase = old
         return cache[key]
@@ -335,10 +404,12 @@ def agraph_runs(nruns, seed, mon):
         kind = r % 4
         # every third run evaluates in two worker processes: what comes back must be the evaluated (optimised) individual
         ev = Evaluation(lo, multiprocess=2) if r % 3 == 1 else Evaluation(lo)
+        # the two algorithms with the "and" variation (crossover AND mutation may hit the same offspring, and a mutation may
+        # turn out to change nothing) get high variation rates
         if kind == 0:
-            ea = AgeFitnessEA(ev, gen, AGraphCrossover(), AGraphMutation(cg), 0.4, 0.4, 8)
+            ea = AgeFitnessEA(ev, gen, AGraphCrossover(), AGraphMutation(cg), 0.5, 0.5, 8)
         elif kind == 1:
-            ea = GeneralizedCrowdingEA(ev, AGraphCrossover(), AGraphMutation(cg), 0.4, 0.4)
+            ea = GeneralizedCrowdingEA(ev, AGraphCrossover(), AGraphMutation(cg), 0.5, 0.5)
         elif kind == 2:
             ea = MuPlusLambda(ev, Tournament(2), AGraphCrossover(), AGraphMutation(cg), 0.4, 0.4, 8)
         else:
@@ -348,7 +419,7 @@ def agraph_runs(nruns, seed, mon):
         mon.truth = truth
         mon.bad_reads = []
         try:
-            for g in range(rng.randint(2, 4)):
+            for g in range(rng.randint(3, 7)):
                 opt.evolve(1)
                 opt.get_best_individual()
                 islands = opt.islands if hasattr(opt, "islands") else [opt]
@@ -450,7 +521,7 @@ def scaled_runs(nruns, seed, mon):
 
 def check(rep, proof):
     runs = 250 if rep.tier == "quick" else 5000
-    rc, res, out, wall = vlib.run_impl("c05", dict(runs=runs, seed=rep.seed, agraph_runs=8 if rep.tier == "quick" else 120,
+    rc, res, out, wall = vlib.run_impl("c05", dict(runs=runs, seed=rep.seed, agraph_runs=16 if rep.tier == "quick" else 160,
                                                    scaled_runs=48 if rep.tier == "quick" else 800),
                                        timeout=3400)
     if res is None:
@@ -461,12 +532,17 @@ def check(rep, proof):
     oracle_bad = [r for r in results if r["viol"]]
     pairs = [(coq_case(r["case"]), r["out"]) for r in steps]
     bad, log = vlib.coq_compare("c05", HEADER, RUNNER, pairs)
+    iops = [r for r in results if r["kind"] == "iop"]
+    pairs2 = [(coq_case2(r["case"]), r["out"]) for r in iops]
+    bad2, log2 = vlib.coq_compare("c05i", HEADER, RUNNER2, pairs2)
     rep.coverage.update(
         evaluations=len(steps) + ag["runs"] + sc["runs"],
         distinct_nontrivial=len({repr(r["case"]) for r in steps if len(r["case"]["specs"]) >= 2}),
         rule="real islands (value chromosomes, five algorithms incl. the base EvolutionaryAlgorithm with VarAnd/VarOr) driven through "
              "random sequences of generational steps, fitness resets, population regenerations, best-individual queries and hall-of-fame "
-             "updates; every "
+             "updates; every other island-level operation (reset, migration through the real "
+             "SerialArchipelago code with a new or one-generation-old partner, regeneration, best / hall-of-fame query) is replayed "
+             "through Model/Pipeline.v island_op from the real state before it; every "
              "generational step is replayed through Model/Pipeline.v (how each offspring arose and which candidates selection "
              "returned are observed) and the next generation's (genome, stored fitness, flag) triples compared; a class-level "
              "monitor flags every read of a missing/stale fitness inside selection, diagnostics, best-individual and hall-of-fame "
@@ -475,7 +551,11 @@ def check(rep, proof):
              "monitor and boundary oracle only; the same for value "
              "chromosomes whose genes lie close together on a relative scale (around 1e6, around 1e-9, indices above 1e5, booleans)",
         samples=[steps[0]["case"]] + ag["samples"][:2] if steps else ag["samples"][:2],
-        correspondence=dict(generational_steps=len(steps), disagreements=len(bad)),
+        correspondence=dict(generational_steps=len(steps), disagreements=len(bad), island_operations=len(iops),
+                            island_operation_kinds=dict((nm, sum(1 for r in iops if r["case"]["op"] == k))
+                                                        for k, nm in enumerate(["reset_fitness", "best / hall-of-fame update",
+                                                                                "regenerate_population", "migration"])),
+                            island_disagreements=len(bad2)),
         agraph=dict(runs=ag["runs"], violations=len(ag["viol"])),
         scaled_genes=dict(runs=sc["runs"], violations=len(sc["viol"]), samples=sc["samples"]),
         oracle_violations=len(oracle_bad) + len(ag["viol"]) + len(sc["viol"]),
@@ -503,6 +583,14 @@ def check(rep, proof):
                       dict(relation="corr_C05_pipeline (Model/Pipeline.v generational_step vs bingo.evolutionary_algorithms)",
                            case=None if j is None else steps[j]["case"], implementation=None if j is None else steps[j]["out"],
                            model=mo, disagreements=len(bad), log=log[-1500:]), has_input=False)
+    if bad2 and not rep.violations:
+        first = bad2[0]
+        j = None if isinstance(first, tuple) else first
+        mo = None if j is None else vlib.coq_eval_one(HEADER, "%s %s" % (RUNNER2, pairs2[j][0]))
+        rep.violation("model and implementation disagree on an island-level operation; property oracle found no failing input",
+                      dict(relation="corr_C05_island (Model/Pipeline.v island_op vs bingo Island / SerialArchipelago migration)",
+                           case=None if j is None else iops[j]["case"], implementation=None if j is None else iops[j]["out"],
+                           model=mo, disagreements=len(bad2), log=log2[-1500:]), has_input=False)
     if not proof["ok"] and not rep.violations:
         rep.violation("proof obligation no longer checks: %s" % proof["broken"],
                       dict(theorem=proof["broken"], log=proof["log"][-3000:]), has_input=False)
